@@ -15,6 +15,9 @@ EXTENDS Naturals, Sequences, FiniteSets, TLC
 CONSTANTS NNodes,     \* number of nodes of the base document
           MaxMut,     \* length of mutation sequences explored exhaustively
           PairStride, \* second mutations only at nodes n with n % PairStride = Seed % PairStride
+          FirstStride,\* ... and only after a first mutation at a node n with n % FirstStride = Seed % FirstStride
+          VarStride,  \* the non-default run configurations (other entry points, switch off, YAML) of a tree operator only at nodes n with n % VarStride = Seed % VarStride
+          SparseStride, \* sparse bases are mutated only at nodes n with n % SparseStride = Seed % SparseStride
           LexStride,  \* lexical operators only at nodes n with n % LexStride = Seed % LexStride (a seeded slice of the nodes)
           Seed
 
@@ -121,11 +124,20 @@ vars == <<muts, entry, allow, yaml, base>>
 
 Init == muts = <<>> /\ entry \in Entries /\ allow \in BOOLEAN /\ yaml \in BOOLEAN /\ base \in Bases
 
+VariantOps == RefOps \cup {"to_null", "delete", "truncate_here"}
 Mutate(op, n) ==
    /\ Len(muts) < MaxMut
    /\ (Len(muts) >= 1 => (n % PairStride = Seed % PairStride          \* pairs on a seeded slice of the nodes,
                            /\ entry = "data" /\ allow /\ ~yaml))      \* JSON through LoadFromData only
-   /\ (base # FullBase => (muts = <<>> /\ n <= SparseNodes /\ op \in SparseOps))
+   /\ (Len(muts) >= 1 => muts[1].node % FirstStride = Seed % FirstStride)
+   /\ (base # FullBase => (muts = <<>> /\ n <= SparseNodes /\ n % SparseStride = Seed % SparseStride /\ op \in SparseOps))
+   \* the run configurations of a single mutation (the same conditions as in Emitted, tested here so that TLC does not build
+   \* states nobody emits): the default one -- LoadFromData, switch on, JSON -- for every operator at every node; the others
+   \* for the operators where location handling and the YAML reader matter, on a seeded slice of the nodes
+   /\ ((yaml \/ ~allow) => entry = "data")
+   /\ ((base = FullBase /\ op \notin LexOps /\ (yaml \/ ~allow \/ entry # "data"))
+          => (op \in VariantOps /\ n % VarStride = Seed % VarStride))
+   /\ (op \in LexOps => (entry = "data" /\ allow /\ (YamlOnly(op) => yaml) /\ (JsonOnly(op) => ~yaml)))
    /\ base \notin BlobBases                                          \* a blob has no nodes to mutate
    /\ (op \in LexOps => n % LexStride = Seed % LexStride)
    /\ (Len(muts) >= 1 => (op \notin LexOps /\ muts[1].op \notin LexOps))   \* lexical operators singly (the pair level is tree x tree)
@@ -133,7 +145,9 @@ Mutate(op, n) ==
    /\ UNCHANGED <<entry, allow, yaml, base>>
 
 (* (the bound is tested before the operators are enumerated: a finished sequence costs TLC one comparison, not |Ops| x NNodes) *)
-Next == Len(muts) < MaxMut /\ base \notin BlobBases /\ \E op \in Ops, n \in 1..NNodes : Mutate(op, n)
+Extendable == IF muts = <<>> THEN TRUE ELSE (/\ muts[1].node % FirstStride = Seed % FirstStride /\ muts[1].op \notin LexOps
+                               /\ base = FullBase /\ entry = "data" /\ allow /\ ~yaml)
+Next == Len(muts) < MaxMut /\ base \notin BlobBases /\ Extendable /\ \E op \in Ops, n \in 1..NNodes : Mutate(op, n)
 Spec == Init /\ [][Next]_vars
 
 (* every case is run through LoadFromData as JSON with external refs allowed; the other entry  *)
